@@ -31,6 +31,13 @@ def check(ctx: Ctx, rep: Report):
     rep.rule("C10.R3", "keep-alive off => closed on every exit of a request; close() and _max_retries_reached always reach _close_transport", 8)
     rep.rule("C10.R4", "loop change and connection loss close the transport; _close_transport tolerates RuntimeError", 5)
     rep.rule("C10.R5", "keep-alive on: a successful request does not close the transport", 4)
+    rep.rule("C10.R6", "use from a new event loop is detected exactly: the lock is reused only after comparing the loops, a new lock records the loop and closes the old transport (shared with C05.R3)", 1)
+    from .c05 import r3 as _c05_r3
+    from ..core import Report as _Report
+    _sub = _Report("C05", rep.tier)
+    _c05_r3(ctx, _sub)
+    for o in _sub.obligations:
+        rep.obligations.append(type(o)("C10.R6", o.key, o.where, o.what, o.status, o.detail))
     prog, res = ctx.prog, ctx.res
     classes = proto_classes(ctx)
     r5(ctx, rep, classes)
